@@ -162,6 +162,15 @@ Wide == {Obj(WideBase), Obj(FnWith(WideBase, "c7", N2)), Obj(FnWith(WideBase, "c
          Obj(FnWith(WideBase, "c5", Arr(<<N1, N2>>))), O1("k0", Obj(WideBase)), O1("k0", Obj(FnWith(WideBase, "c7", N2))),
          Arr(<<Obj(WideBase)>>), Arr(<<Obj(FnWith(WideBase, "c9", N2))>>)}
 
+(* an object of 40 members below the root that loses almost all of them *)
+Wide40Keys == {"d" \o ToString(i) : i \in 0..39}
+Wide40 == {O2("k0", Obj([j \in Wide40Keys |-> N1]), "k1", N1), O2("k0", Obj([j \in {"d0"} |-> N1]), "k1", N1), O2("k0", EmptyObj, "k1", N1),
+           O2("k0", Obj([j \in {"d0", "d1", "kz"} |-> N2]), "k1", N1), O1("k0", O1("k1", Obj([j \in Wide40Keys |-> S0]))), O1("k0", O1("k1", EmptyObj))}
+
+(* 4300 elements (an LCS table of 18 million cells): two replacements far apart, the last element replaced, an insertion in front *)
+Huge2Base == [i \in 1..4300 |-> Num(8 * (1 + (i % 7)))]
+Huge2 == {Arr(Huge2Base), Arr(SeqReplace(SeqReplace(Huge2Base, 11, N9), 4291, N9)), Arr(SeqReplace(Huge2Base, 4300, N9)), Arr(<<N9>> \o Huge2Base)}
+
 (* one pair beyond thresholds in the thousands: 2100 elements, two replacements 2080 positions apart *)
 HugeBase == [i \in 1..2100 |-> Num(8 * (1 + (i % 7)))]
 Huge == {Arr(HugeBase), Arr(SeqReplace(SeqReplace(HugeBase, 11, N9), 2091, N9)), Arr(SeqReplace(HugeBase, 1050, N9))}
